@@ -1,20 +1,22 @@
-\* generated with the builder script of C02/C08; families: MCSearchers.tla
+\* generated by mkcfg_searchers.py; families and layouts: MCSearchers.tla
 SPECIFICATION Spec
 CONSTANTS
-  SegSizes <- Segs0
+  SegSizes <- Segs21
   Deleted = {}
   OneHitEnc = TRUE
   ScoreNone = FALSE
   HeapTakeover = 10
-  MaxCalls = 1
-  NTerms = 1
-  Family = "term"
+  MaxCalls = 2
+  NTerms = 2
+  Family = "q2"
   DropK1 = FALSE
   Queries <- MCQueries
-  FixEmptySnapshot = FALSE
-  FixBoolAdvance = FALSE
+  FixEmptySnapshot = TRUE
+  FixBoolAdvance = TRUE
   FixShouldMin = FALSE
   FirstAdvanceOK <- FirstAdvAlways
 VIEW View
+INVARIANT ResultOK
 INVARIANT NoPanic
+INVARIANT EnumIsHits
 CHECK_DEADLOCK FALSE
